@@ -61,7 +61,8 @@ ssize_t __wrap_send(int fd, const void* buf, size_t len, int flags) {
 }
 int __wrap_clock_gettime(clockid_t id, struct timespec* ts) {
   srv::State& s = srv::st();
-  if (!s.active || (id != CLOCK_MONOTONIC && id != CLOCK_REALTIME)) return __real_clock_gettime(id, ts);
+  bool timeClock = id == CLOCK_MONOTONIC || id == CLOCK_REALTIME || id == CLOCK_MONOTONIC_RAW || id == CLOCK_MONOTONIC_COARSE || id == CLOCK_REALTIME_COARSE || id == CLOCK_BOOTTIME;
+  if (!s.active || !timeClock) return __real_clock_gettime(id, ts);   // (every wall / monotonic clock is the one virtual clock)
   ts->tv_sec = (time_t)(s.nowMs / 1000); ts->tv_nsec = (long)(s.nowMs % 1000) * 1000000L;
   return 0;
 }
